@@ -2,7 +2,7 @@
    Property theorems only (tree level; every view operation of the model is a composition of
    getter / setter / root / children, and the view level is tied by the correspondence).
    summ n m : n is m with some subtrees replaced by RootN (root subtree). *)
-Require Import RM.Base RM.Gindex RM.Tree RM.TreeProofs RM.Types RM.ModelCodec RM.ModelMut RM.PartialProofs RM.PartialViews.
+Require Import RM.Base RM.Gindex RM.Tree RM.TreeProofs RM.Types RM.ModelCodec RM.ModelMut RM.PartialProofs RM.PartialViews RM.ModelStore RM.PartialStore.
 
 Theorem C17_root : forall H n m, summ H n m -> root H n = root H m.
 Proof. exact summ_root. Qed.
@@ -111,3 +111,32 @@ Print Assumptions C17_bitlist_append.
 Print Assumptions C17_bitlist_pop.
 Print Assumptions C17_union_value.
 Print Assumptions C17_lengths.
+
+(* serialisation: whenever the encoding of a view over the partial tree can be computed, it is the complete tree's
+   encoding (same bytes, same count), for every type *)
+Theorem C17_encoding : forall H src t n m r, summ H n m -> ser_impl H src t n = Ok r -> ser_impl H src t m = Ok r.
+Proof.
+  intros H src t n m r Hs Hr. destruct (psim_ok eq _ _ r (summ_ser H src t n m Hs) Hr) as (r' & Hr' & <-). exact Hr'.
+Qed.
+
+(* ---- store level (PartialStore.v): views WITH their hooks.  psrel sp sc: cell by cell the same type and hook, the
+   partial backing a summary of the complete (materialised) one.  ANY command that succeeds on the partial store —
+   child reads, union values, copies, every mutation with its propagation through the hook chain — succeeds on the
+   complete store and keeps the stores related; hence whole histories of successful commands through any held views. *)
+Theorem C17_store_start : forall H t n m, summ H n m -> novirt m -> wf_ty t = true ->
+  psrel H [{| cty := t; cback := n; chook := HNone |}] [{| cty := t; cback := m; chook := HNone |}].
+Proof. exact psrel_start. Qed.
+
+Theorem C17_store_command : forall H src (Hi : Hinj H) sp sc c sp', psrel H sp sc -> run_cmd H src sp c = (Ok tt, sp') ->
+  exists sc', run_cmd H src sc c = (Ok tt, sc') /\ psrel H sp' sc'.
+Proof. exact run_cmd_psim. Qed.
+
+Theorem C17_store_observed : forall H src sp sc, psrel H sp sc -> forall u cp, nth_error sp u = Some cp ->
+  exists cc, nth_error sc u = Some cc /\ cty cp = cty cc /\ root H (cback cp) = root H (cback cc) /\
+             (forall r, ser_impl H src (cty cp) (cback cp) = Ok r -> ser_impl H src (cty cc) (cback cc) = Ok r).
+Proof. exact psrel_observed. Qed.
+
+Print Assumptions C17_encoding.
+Print Assumptions C17_store_start.
+Print Assumptions C17_store_command.
+Print Assumptions C17_store_observed.
